@@ -53,6 +53,56 @@ def apply_path(term, path):
     return term
 
 
+def push_loop_len(crate, an, value, use_block):
+    """length of a local Vec that starts empty and receives exactly one push in every iteration of one complete
+    `for _ in 0..n` loop and nothing else: n (valid at use_block, after the loop)"""
+    from .mem import complete_scan
+    if not (value[0] == "mem" and value[3] is None and value[1].startswith("L")) or use_block is None:
+        return None
+    R = value[1]
+    fx = crate.fx(an.path)
+    inits, pushes, others = [], [], []
+    for ev in an.events:
+        if ev["k"] == "store" and ev["region"] == R:
+            inits.append(ev["val"])
+        if ev["k"] != "call":
+            continue
+        mode, name, vp = an.walk_place(an.blocks[ev["b"]]["term"]["dest"])
+        if mode == "mem" and name == R:
+            inits.append(ev["res"])
+        if ev["args"] and ev["args"][0][0] == "addr" and ev["args"][0][1] == R and not ev["pure"]:
+            if ev["key"] == "alloc::vec::Vec::push":
+                pushes.append(ev)
+            else:
+                others.append(ev)
+    def empty(v):
+        k = v[1] if v[0] == "call" else v[2] if v[0] == "site" else None
+        return k in ("alloc::vec::Vec::new", "alloc::vec::Vec::with_capacity")
+    if len(inits) != 1 or not empty(inits[0]) or len(pushes) != 1 or others:
+        return None
+    pu = pushes[0]
+    hb = an.cfg.loop_of(pu["b"])
+    if hb is None:
+        return None
+    body = an.cfg.loops[hb]
+    drivers = [ev for ev in an.events if ev["k"] == "call" and ev["key"] == "core::iter::traits::iterator::Iterator::next"
+               and ev["b"] in body and an.cfg.loop_of(ev["b"]) == hb]
+    if len(drivers) != 1:
+        return None
+    d = fx.iter_desc(drivers[0])
+    if not (d and d != "CYCLE" and d[0] == "agg" and d[1] == "adt" and d[2][0].endswith("ops::range::Range")
+            and d[3][0] == ("const", "usize", 0)):
+        return None
+    if not complete_scan(an, fx, drivers[0]):
+        return None
+    latches = [p for p, _ in an.cfg.pred[hb] if an.cfg.dominates(hb, p)]
+    if not latches or not all(an.cfg.dominates(pu["b"], lb) for lb in latches):
+        return None
+    if use_block in body or not an.cfg.dominates(hb, use_block):
+        return None
+    return d[3][1]
+
+
 class Invariants:
     def __init__(self, crate):
         self.c = crate
@@ -232,8 +282,13 @@ class Invariants:
                 fi = self.field_index(S, field) if S in self.prog.adts else None
                 if fi is not None:
                     L = mk_len(strip_ref(t[3][fi]), an)
-                    if _only_args(L):
+                    if _only_args(L) and L != ("len", strip_ref(t[3][fi])):
                         res = L
+                    else:
+                        lit_b = [b for (b, i), tt in an.stmt_terms.items() if tt is t]
+                        L2 = push_loop_len(self.c, an, strip_ref(t[3][fi]), lit_b[0] if lit_b else None)
+                        if L2 is not None and _only_args(L2):
+                            res = L2
         self._ctor_len[key] = res
         return res
 
